@@ -531,6 +531,17 @@ func (u *Unit) specCall(st *State, e *SExpr, env *SpecEnv, q *bool) *Val {
 		return v
 	case "unwrap": // unwrap(e): the error wrapped by a fmt.Errorf("%w") value (nil if none)
 		return &Val{T: types.Universe.Lookup("error").Type(), S: app(u.wrapsFn(), ev(0).S)}
+	case "pathJoin":
+		return &Val{T: types.Typ[types.String], S: app(u.d.fun("fn!path.Join2", []string{SStr, SStr}, SStr), ev(0).S, ev(1).S)}
+	case "pathClean":
+		return &Val{T: types.Typ[types.String], S: app(u.d.fun("fn!path.Clean", []string{SStr}, SStr), ev(0).S)}
+	case "resolvePath":
+		return &Val{T: types.Typ[types.String], S: app(u.d.fun("fn!url.resolvePath", []string{SStr, SStr}, SStr), ev(0).S, ev(1).S)}
+	case "splitOf":
+		return u.splitVal(st, ev(0).S, ev(1).S, types.NewSlice(types.Typ[types.String]))
+	case "trimPrefix":
+		a, b := ev(0), ev(1)
+		return &Val{T: types.Typ[types.String], S: tIte(app("str.prefixof", b.S, a.S), app("str.substr", a.S, app("str.len", b.S), app("-", app("str.len", a.S), app("str.len", b.S))), a.S)}
 	case "joinOf": // joinOf(xs, sep): strings.Join(xs, sep)
 		return &Val{T: types.Typ[types.String], S: u.joinTerm(ev(0), ev(1).S)}
 	case "canonHeader":
@@ -562,7 +573,11 @@ func (u *Unit) specCall(st *State, e *SExpr, env *SpecEnv, q *bool) *Val {
 			terms = append(terms, u.scalar(st, v))
 		}
 		rt := u.resolveType(env.pkg, args[1].Name)
-		f := u.d.fun("pure!"+args[0].Name+"!0", sorts, sortOf(rt))
+		fname, idx := args[0].Name, "0"
+		if i := strings.LastIndex(fname, "#"); i >= 0 {
+			fname, idx = fname[:i], fname[i+1:]
+		}
+		f := u.d.fun("pure!"+fname+"!"+idx, sorts, sortOf(rt))
 		return u.fromScalar(st, app(f, terms...), rt)
 	case "seen": // inside range-map loop invariants: key already visited
 		k := ev(0)
